@@ -238,8 +238,14 @@ def all_dtype_rejected(lkeys, rkeys, nkeys):
 
 
 def cases(unit):
-    kind, nkeys, config, forms, nl, maxr = unit
+    """unit = (kind, nkeys, config, forms, nl, maxr[, first]); `first` (an index into the key tuples) restricts the unit to the left
+    key lists that start with that tuple - a way of splitting one large unit over several workers, nothing is dropped"""
+    kind, nkeys, config, forms, nl, maxr = unit[:6]
+    first = unit[6] if len(unit) > 6 else None
+    tuples = list(itertools.product(KEY_ALPHA[kind], repeat=nkeys))
     for lkeys in key_lists(kind, nkeys, nl):
+        if first is not None and nl > 0 and lkeys[0] != tuples[first]:
+            continue
         for nr in range(0, maxr + 1):
             for rkeys in key_lists(kind, nkeys, nr):
                 yield list(lkeys), list(rkeys)
